@@ -147,7 +147,16 @@ func build() {
 		c386.Dir = simDir
 		c386.Env = append(goEnv(), "GOARCH=386")
 		if out, err := c386.CombinedOutput(); err != nil {
-			fmt.Printf("note: no 32-bit build of the simulator against this tree (%v): %s; the platform leg is skipped\n", err, tail(string(out), 300))
+			// whose fault? if the library itself builds for 386 the simulator is not 32-bit clean: that is harness trouble,
+			// not something to skip silently
+			lib := exec.Command(goBin, "build", "-tags", "verif", "./...")
+			lib.Dir = buildRepo
+			lib.Env = append(goEnv(), "GOARCH=386")
+			if _, lerr := lib.CombinedOutput(); lerr == nil {
+				fmt.Print(string(out))
+				harness("the simulator does not build for GOARCH=386 although the library does: %v", err)
+			}
+			fmt.Printf("note: the library under test does not build for GOARCH=386 (%v): %s; the platform leg is skipped\n", err, tail(string(out), 300))
 		} else {
 			have386 = true
 		}
